@@ -130,4 +130,12 @@ theorem C01_clearing_price_published (env : Env) (rules : Rules) (m : PrepareMsg
 theorem C01_height_window (best hint : UInt32) (h : heightOk best hint = true) :
     hint.toNat ≤ best.toNat + 3 ∧ best.toNat ≤ hint.toNat + 3 := heightOk_sound best hint h
 
+/-- **Regenerated fact.** `ParseRPCServerAsk/Bid` take the counterparty order's lease duration from the message field
+as it is – both as the argument of `ParseRPCServerOrder` and in the assignment to `kit.LeaseDuration` – whatever
+the order version (the model's `parseTheir` copies `duration` unchanged, so the bucket check and the duration test of
+`validateMatchedOrder` see what the auctioneer sent). -/
+theorem C01_duration_taken_from_message :
+    Pool.Gen.Batch.serverOrderDurationSources.all (· == "details.LeaseDurationBlocks") = true ∧
+    Pool.Gen.Batch.serverOrderDurationSources.length = 3 := by decide
+
 end Pool.C01
